@@ -266,8 +266,11 @@ def gen_op_fields(r, o, op, mode, maxn, types):
         if o == "bad_set":
             op["idx"] = r.choice([2 ** 31, -2 ** 31, 2 ** 32, 2 ** 32 + 1, 2 ** 63 - 1, -2 ** 63, maxn + 3, 2 ** 64, -2 ** 64, 2 ** 63])
         op["dlen"] = r.weighted([(9, 0), (1, r.choice([-1, 1]))]) if mode == "faults" else 0
-        op["src"] = r.weighted([(6, "new"), (3, "slot")])
+        op["src"] = r.weighted([(6, "new"), (3, "slot"), (2, "self")])
         op["h2"] = r.below(1 << 16)
+        if op["src"] == "self" and o == "set_a":
+            # the source will be a masked reference of the destination itself: slices that walk over many elements
+            op["idx"] = [r.choice([None, 0, 1, 2, -1, -2]), r.choice([None, None, maxn, -1]), r.choice([1, 2, 2, 3, -1, -2, None])]
     elif o == "iop":
         op["name"] = r.choice(["__iadd__", "__isub__"])
         op["rhs"] = r.weighted([(4, "scalar"), (4, "array"), (2, "masked"), (3, "unmasked")] + ([(1, "badlen")] if mode == "faults" else []))
@@ -733,6 +736,19 @@ class Sim(FAM.FamilyMixin):
     def source_array(self, op, h, want_len):
         """right-hand side array for an assignment: fresh, or an existing handle of the same type with separate storage"""
         ln = max(0, want_len + op.get("dlen", 0))
+        n = len(h.idx)
+        if op.get("src") == "self" and not h.masked and 0 < ln <= n:
+            # a fresh masked reference of the destination itself that selects exactly ln of its elements
+            # (a[::2] = a[mask]): as on a list, the right-hand side is read before anything is written
+            x, cand, pos = (op["h2"] * 2654435761) % (1 << 32), list(range(n)), []
+            for _ in range(ln):
+                x = (x * 1103515245 + 12345) % (1 << 31)
+                pos.append(cand.pop((x >> 8) % len(cand)))
+            pos.sort()
+            cur = h.values()
+            self.inc("probe.assign_source_is_masked_reference_of_destination")
+            self.ctx("setitem-array-source-shares-storage", h)
+            return h.real[self.make_mask([1 if k in pos else 0 for k in range(n)])], [cur[k] for k in pos]
         if op.get("src") == "slot":
             # one time in three the source may be a view of the destination's own storage (a[1:4] = a[mask]): like
             # `l[1:4] = [l[i] for i in sel]` on a list, the right-hand side is read before anything is written
